@@ -60,6 +60,13 @@ func runCDSess(env *Env) error {
 		if i%3 == 0 {
 			imgs = append(imgs, img{"small.bin", 0, small})
 		}
+		// exactly at the lower edge of the window (2 MiB, inclusive): probed like any larger image
+		if i%3 != 2 {
+			se := []int{2048, 2328, 2336, 2340, 2368, 2448}[env.Rnd.Intn(6)]
+			exact := genCDImage(env, se, i%2 == 1, minSectors(se))
+			exact[len(exact)-1].N -= int(exact.Size() - 0x200000)
+			imgs = append(imgs, img{"exact.bin", se, exact})
+		}
 		r := &WNode{Name: "R", Dir: true, MTime: 1500000000}
 		for _, im := range imgs {
 			r.Kids = append(r.Kids, &WNode{Name: im.name, MTime: 1400000000, Content: im.c})
@@ -235,6 +242,20 @@ func runHostile(env *Env) error {
 				es = append(es, hostileElems[env.Rnd.Intn(len(hostileElems))])
 			}
 			p := strings.Join(es, "/")
+			if k%4 == 3 { // separators of another platform, alone and mixed: one path element for this server, never a way up
+				var sb strings.Builder
+				for j, e := range es {
+					if j > 0 {
+						sb.WriteString([]string{"\\", "\\", "/"}[env.Rnd.Intn(3)])
+					}
+					sb.WriteString(e)
+				}
+				p = sb.String()
+				if k%8 == 7 {
+					p = []string{`..\R-other\secret`, `/..\Rx\secret`, `/sub\..\..\R-other\x.iso`, `/..\secret`, `/***DVD***\..\..\Rx`, `..\..\secret`, `/..\R-other\sub`,
+						`/***PS3***/..\Rx`, `/a\..\..\R-other\new`, `\..\R-other\secret`, `/PS3ISO\..\..\Rx\x.iso`}[env.Rnd.Intn(11)]
+				}
+			}
 			if env.Rnd.Intn(3) != 0 {
 				p = "/" + p
 			}
